@@ -102,13 +102,16 @@ def classify_interstorms(cursor, data_interval, rising_jump_threshold_mm_h):
     )
     assert len(epoch), epoch.shape
     check_for_uniform_time_steps(epoch)
-    hour = epoch / 3600.0
     is_raining = is_raining.astype(bool)
     assert np.isfinite(zeta_mm).all()
     # Look for jumps in head much bigger than noise, which could
     # indicate the onset of rain, and mark everything after the jump
     # until the next rain as a "mystery jump".
-    rates = np.concatenate(([0], (zeta_mm[1:] - zeta_mm[:-1]) / (hour[1:] - hour[:-1])))
+    # Time differences are taken between epochs (exact integers), so
+    # that the result does not depend on the time origin
+    rates = np.concatenate(
+        ([0], (zeta_mm[1:] - zeta_mm[:-1]) / ((epoch[1:] - epoch[:-1]) / 3600.0))
+    )
     is_jump = (rates > rising_jump_threshold_mm_h).astype(bool)
     is_mystery_jump = get_mystery_jump_mask(is_jump, is_raining)
     is_interstorm = (~is_mystery_jump) & (~is_raining)
@@ -154,7 +157,7 @@ def classify_interstorms(cursor, data_interval, rising_jump_threshold_mm_h):
                 "thru_epoch": int(epoch[indices[-1]]),
             },
         )
-    del hour, zeta_mm
+    del zeta_mm
     del series_indices
 
 
